@@ -29,17 +29,46 @@ def gdiff(a, b, path=""):
 
 
 def gnorm(g):
-    """arms of a dispatch in a canonical order (which arm the source lists first is irrelevant)"""
+    """canonical form of a generator term: a dispatch floats to the top of the sequence (and of the length-prefixed block)
+    it stands in - `tag, lenp[match m {..}]` and `match m { .. => tag, lenp[..] }` write the same bytes; arms in a canonical
+    order; a sequence that reaches NotYetImplemented is NotYetImplemented (only successful serialisations are compared)"""
     out = []
     for s in g:
         if s[0] == "lenp":
-            out.append(["lenp", s[1], gnorm(s[2])])
+            inner = gnorm(s[2])
+            if len(inner) == 1 and inner[0][0] == "switch":
+                sw = inner[0]
+                out.append(["switch", sw[1], [[lab, gnorm([["lenp", s[1], g2]])] for lab, g2 in sw[2]], gnorm([["lenp", s[1], sw[3]]]) if sw[3] is not None else None])
+            elif inner == [["nyi"]]:
+                out.append(["nyi"])
+            else:
+                out.append(["lenp", s[1], inner])
         elif s[0] == "repeat":
             out.append(["repeat", s[1], gnorm(s[2])])
         elif s[0] == "switch":
-            out.append(["switch", s[1], sorted([[lab, gnorm(g2)] for lab, g2 in s[2]], key=lambda x: x[0]), gnorm(s[3]) if s[3] else s[3]])
+            out.append(["switch", s[1], [[lab, gnorm(g2)] for lab, g2 in s[2]], gnorm(s[3]) if s[3] is not None else None])
         else:
             out.append(s)
+    if any(x == ["nyi"] for x in out):
+        return [["nyi"]]
+    # float the first dispatch to the top
+    for i, s in enumerate(out):
+        if s[0] == "switch" and len(out) > 1:
+            pre, post = out[:i], out[i + 1:]
+            arms = [[lab, gnorm(pre + g2 + post)] for lab, g2 in s[2]]
+            dflt = gnorm(pre + s[3] + post) if s[3] is not None else None
+            out = [["switch", s[1], arms, dflt]]
+            break
+    if len(out) == 1 and out[0][0] == "switch":
+        s = out[0]
+        arms = sorted([[lab, g2] for lab, g2 in s[2]], key=lambda x: x[0])
+        dflt = s[3]
+        # a default that is itself a dispatch on the same value continues this one
+        while dflt is not None and len(dflt) == 1 and dflt[0][0] == "switch" and dflt[0][1] == s[1]:
+            seen = set(l for l, _ in arms)
+            arms += [[l, g2] for l, g2 in dflt[0][2] if l not in seen]
+            dflt = dflt[0][3]
+        out = [["switch", s[1], sorted(arms, key=lambda x: x[0]), dflt]]
     return out
 
 
@@ -123,7 +152,7 @@ def run(tier, repo):
                         ok = True
                     rp.check(ok, "LEN-PAIRING", "%s%s/%s" % (name, p, sym_str(s[3])[:60]), site(f), "length field %s does not equal the byte length of what follows it" % sym_str(s[3]),
                              expected="len(x) then x (or len(x)*w then w-byte elements of x)", found=json.dumps(nxt)[:200], why_ok="prefixes exactly the following %s" % ("bytes" if k == 1 else "%d-byte elements" % k))
-        walk_g(g, chk)
+        walk_g(gnorm(g), chk)
     # TAG-AGREE with the parser's dispatch tables (read from the parser grammar of this same build)
     from ..pir import Opaque as _Opaque
     try:
@@ -137,8 +166,8 @@ def run(tier, repo):
             for c, sq in st[3]:
                 arms[c] = json.dumps(sq)
     walk_steps(hs, find_sw)
-    gm = G.get("tls_serialize::gen_tls_message")
-    if gm and arms:
+    gm = gnorm(G.get("tls_serialize::gen_tls_message") or [])
+    if gm and arms and gm[0][0] == "switch":
         hsw = None
         for lab, g2 in gm[0][2]:
             if lab.endswith("::Handshake"):
